@@ -765,6 +765,7 @@ fn run_fuzz_campaign(prop_id: &str, spec: &FuzzSpec, cfg: &RunCfg, known: &[Know
     let mut viols = vec![];
     let mut known_hits = vec![];
     let mut foreign = 0;
+    let mut not_reproduced = 0;
     for (art, log) in &crash_outputs {
         // the crash text: from the first "panicked at" / "ERROR: " line
         let start = log.find("panicked at").or_else(|| log.find("ERROR: ")).unwrap_or(0);
@@ -779,6 +780,25 @@ fn run_fuzz_campaign(prop_id: &str, spec: &FuzzSpec, cfg: &RunCfg, known: &[Know
             continue;
         }
         let bytes = std::fs::read(art).unwrap_or_default();
+        // a time / memory limit of the fuzzer is not a verdict about the property, and an artifact counts only when the
+        // target fails on it again from a fresh process (a unit that outlived -timeout on a loaded machine does not)
+        let fname = art.file_name().map(|f| f.to_string_lossy().to_string()).unwrap_or_default();
+        let limit_artifact = ["timeout-", "oom-", "slow-unit-"].iter().any(|p| fname.contains(p));
+        let reproduced = !limit_artifact && (0..2).any(|_| {
+            std::process::Command::new(fuzz_bin(spec.target))
+                .arg(art)
+                .env("ASAN_OPTIONS", "detect_odr_violation=0:abort_on_error=0")
+                .stdout(std::process::Stdio::null())
+                .stderr(std::process::Stdio::null())
+                .status()
+                .map(|st| !st.success())
+                .unwrap_or(false)
+        });
+        if !reproduced {
+            not_reproduced += 1;
+            eprintln!("[{prop_id}] fuzz {}: artifact {fname} does not fail when replayed ({}): not counted", spec.target, if limit_artifact { "fuzzer limit" } else { "2 fresh executions pass" });
+            continue;
+        }
         let replay = json!({
             "property": prop_id, "phase": format!("fuzz:{}", spec.target), "kind": "fuzz", "target": spec.target, "seed": cfg.seed,
             "tape_nonzero": bytes.len(), "artifact_hex": crate::tape::hex(&bytes), "signature": sig, "message": text,
@@ -788,7 +808,7 @@ fn run_fuzz_campaign(prop_id: &str, spec: &FuzzSpec, cfg: &RunCfg, known: &[Know
     let n_corpus = std::fs::read_dir(&corpus).map(|r| r.count()).unwrap_or(0);
     let report = json!({
         "target": spec.target, "engine": "libFuzzer (cargo-fuzz, -O, AddressSanitizer)", "jobs": spec.jobs, "seconds_per_job": spec.secs, "executions": execs, "edge_coverage": cov,
-        "seed_inputs": n_seed, "corpus_after": n_corpus, "crashes_for_this_property": viols.len(), "crashes_of_other_properties_oracle": foreign, "wall_s": t0.elapsed().as_secs_f64(),
+        "seed_inputs": n_seed, "corpus_after": n_corpus, "crashes_for_this_property": viols.len(), "crashes_of_other_properties_oracle": foreign, "artifacts_not_reproduced_or_fuzzer_limits": not_reproduced, "wall_s": t0.elapsed().as_secs_f64(),
     });
     eprintln!("[{prop_id}] fuzz {:<10} {:>10} execs  cov {:>6}  corpus {:>5}  {:>6.1}s  crashes {}", spec.target, execs, cov, n_corpus, t0.elapsed().as_secs_f64(), viols.len());
     let _ = std::fs::remove_dir_all(&work);
